@@ -564,6 +564,15 @@ Definition v_MsgCallContract (m : x_call_contract) : vres :=
   CHECK (pure (ct_data_empty m)) FAIL "data is empty" ;;
   VOk.
 
+(* ---------------- x/ibc/middleware/types/packet.go : the IBC memo packet (JSON, from the counterparty chain) ---------------- *)
+Record i_call_evm := { ic_to : extv; ic_value : intv; ic_data : hexv }.
+Definition v_IbcCallEvmPacket (m : i_call_evm) : vres :=
+  CHECK (pure (negb (eth_ok (ic_to m)))) FAIL "to address" ;;
+  CHECK (int_isneg (ic_value m)) FAIL "value" ;;                          (* icep.Value.IsNegative(): no nil check *)
+  CHECK (pure (negb (hex_ok (ic_data m)))) FAIL "data" ;;
+  VOk.
+Definition must_IbcCallEvmPacket (m : i_call_evm) : list (R unit) := [ must_hex (ic_data m) ].   (* MustGetData *)
+
 (* ---------------- precompile argument structs: x/{staking,crosschain}/types/contract.go ---------------- *)
 Inductive bigv := BgNil | BgNeg | BgZero | BgPos.        (* *big.Int as produced by the caller; abi.Unpack never yields BgNil/BgNeg for uint256 *)
 Definition big_nil (b : bigv) : bool := match b with BgNil => true | _ => false end.
@@ -688,7 +697,8 @@ Inductive vinput :=
 | I_MsgMigrateAccount (m : g_migrate) | I_MsgUpdateStore (m : v_update_store) | I_MsgUpdateSwitchParams (m : v_switch)
 | I_CustomParams (p : v_custom) | I_MsgCallContract (m : x_call_contract)
 | I_StakingArgs (a : sargs) | I_CrosschainArgs (a : cargs)
-| I_ValidateExternalAddr (c : chainv) (x : extv).
+| I_ValidateExternalAddr (c : chainv) (x : extv)
+| I_IbcCallEvmPacket (m : i_call_evm).
 
 Definition validate (i : vinput) : vres :=
   match i with
@@ -707,6 +717,7 @@ Definition validate (i : vinput) : vres :=
   | I_CustomParams p => v_CustomParams p | I_MsgCallContract m => v_MsgCallContract m
   | I_StakingArgs a => v_staking_args a | I_CrosschainArgs a => v_crosschain_args a
   | I_ValidateExternalAddr c x => validate_external_addr c x
+  | I_IbcCallEvmPacket m => v_IbcCallEvmPacket m
   end.
 
 (* inputs on which the faithful model panics: exactly the defects recorded in docs/findings/C20-*.md *)
@@ -720,6 +731,7 @@ Definition known_panic_input (i : vinput) : bool :=
   | I_MsgBridgeCall m => int_isnil (mb_value m) || coins_nil_amount (mb_coins m)
   | I_MsgConfirm m => match mw_confirm m with AnyNil => true | _ => false end
   | I_CrosschainArgs a => negb (cargs_from_abi a)
+  | I_IbcCallEvmPacket m => int_isnil (ic_value m)
   | I_StakingArgs _ => false
   | _ => false
   end.
@@ -738,7 +750,7 @@ Definition modelled_types : list string :=
     "erc20.MsgConvertCoin"; "erc20.MsgConvertERC20"; "erc20.MsgConvertDenom"; "erc20.MsgUpdateParams"; "erc20.Params";
     "erc20.MsgRegisterCoin"; "erc20.MsgRegisterERC20"; "erc20.MsgToggleTokenConversion"; "erc20.MsgUpdateDenomAlias";
     "migrate.MsgMigrateAccount"; "gov.MsgUpdateStore"; "gov.MsgUpdateSwitchParams"; "gov.SwitchParams"; "gov.CustomParams";
-    "evm.MsgCallContract";
+    "evm.MsgCallContract"; "middleware.IbcCallEvmPacket";
     "staking.AllowanceSharesArgs"; "staking.ApproveSharesArgs"; "staking.DelegateArgs"; "staking.DelegateV2Args";
     "staking.DelegationArgs"; "staking.DelegationRewardsArgs"; "staking.RedelegateArgs"; "staking.RedelegateV2Args";
     "staking.TransferSharesArgs"; "staking.TransferFromSharesArgs"; "staking.UndelegateArgs"; "staking.UndelegateV2Args";
